@@ -111,6 +111,30 @@ theorem write_then_read (h : H) (s : Store) (inv : RwInv h s) (ty : Ty) (fc fc' 
   rw [f]
   exact C01.data_roundtrip C01.widenExact h.enc hwf inv.gives.2.2.1 _ _ ty data hv hl
 
+/-- the same two facts in the VALUES view `absValues h s ty` (every stored frame decoded to its `ch` items of the caller's
+    type): after a write of lossless samples at write position `p`, frames `p … p+k` of the file are the caller's
+    frames (the buffer cut into groups of `ch` items) … -/
+theorem write_puts_values (h : H) (s : Store) (inv : RwInv h s) (ty : Ty) (fc : Bool) (data : List Int)
+    (hmod : data.length % h.ch = 0) (hpos : 0 < data.length)
+    (hwf : h.enc.wf) (hv : ∀ v ∈ data, ty.inRange v) (hl : ∀ v ∈ data, lossless h.enc ty v) :
+    let r := stepAny h s ((ROp.write ty fc data).toOp h)
+    ((absValues r.1 r.2.1 ty).drop (absOf h s).wpos).take (data.length / h.ch) = groups h.ch data := by
+  have g := inv.gives
+  have hsub := groups_mem_sub h.ch g.2.1 data hmod
+  exact write_puts_values_core h s inv ty fc data hmod hpos (fun c' x hx =>
+    C01.data_roundtrip C01.widenExact h.enc hwf g.2.2.1 _ c' ty x (fun v hvx => hv v (hsub x hx v hvx))
+      (fun v hvx => hl v (hsub x hx v hvx)))
+
+/-- … and a read of `k` frames returns the frames `rpos … rpos+k` of that view (as many as exist), the rest of the
+    requested region untouched (or zero when the read position was at / after the end) -/
+theorem read_returns_values (h : H) (s : Store) (inv : RwInv h s) (ty : Ty) (fc : Bool) (k : Nat) (hk : 0 < k) :
+    let r := stepAny h s ((ROp.read ty fc k).toOp h)
+    let got := ((absValues h s ty).drop (absOf h s).rpos).take k
+    r.2.2.ret = callCount h fc got.length ∧ r.2.2.err = 0 ∧
+    r.2.2.data = got.flatten ++ List.replicate ((k - got.length) * h.ch)
+      (if (absOf h s).rpos < (absOf h s).frames.length then pattern ty else 0) :=
+  read_values_core h s inv ty fc k hk
+
 /-- `overwrite_keeps_length`: writing inside existing data replaces exactly the frames `wpos … wpos+k` and leaves
     the frame count alone -/
 theorem overwrite_keeps_length (h : H) (s : Store) (inv : RwInv h s) (ty : Ty) (fc : Bool) (data : List Int)
@@ -384,6 +408,10 @@ example : (runR eH {} [.write .s16 true [1, -2, 3, 32767], .seek .set .rd 0]).1.
              (runR eH {} [.write .s16 true [1, -2, 3, 32767], .seek .set .rd 0]).2
              ((ROp.read .s16 true 3).toOp eH)).2.2.data = [1, -2, 3, 32767, -23131, -23131] ∧
     eH.enc.wf ∧ (∀ v ∈ [1, -2, 3, 32767], Ty.inRange .s16 v) ∧ (∀ v ∈ [1, -2, 3, 32767], lossless eH.enc .s16 v) := by decide
+
+/-- the values view: after the two frames above are written, the file is `[[1, -2], [3, 32767]]` for a caller of shorts -/
+example : absValues (runR eH {} [.write .s16 true [1, -2, 3, 32767]]).1 (runR eH {} [.write .s16 true [1, -2, 3, 32767]]).2 .s16 =
+    [[1, -2], [3, 32767]] := by decide
 
 /-- write_at_end_extends, with a hole: on the empty file seek the write pointer to frame 2 and write one frame: 3 frames,
     the first two are zero bytes; overwrite_keeps_length: rewriting frame 0 afterwards keeps 3 frames -/
